@@ -13,7 +13,7 @@ CONFIG = {
         "V.C03.eventID_redact_invariant_received",
         "V.C03.eventID_injective", "V.C03.hash_injective", "V.C03.eventID_alphabet", "V.C03.v12_create_roomID",
         "V.C03.v12_auth_first", "V.C03.reparse_same_partial", "V.C03.build_checked_partial", "V.C03.build_roundtrip",
-        # round 4 (fix af16fb2): the events Sign / SetUnsigned / SetUnsignedField return are the same event (struct, fields, ID,
+        # round 4 (fix 2aa10ca): the events Sign / SetUnsigned / SetUnsignedField return are the same event (struct, fields, ID,
         # room ID, auth references)
         "V.C03.signWith_same", "V.C03.setUnsigned_same", "V.C03.setUnsignedField_same", "V.C03.derived_same_accessors",
     ],
@@ -66,11 +66,11 @@ CONFIG = {
         "headered) that carries an event_id member in a hashed-ID format - the constructors take the stored ID from that member (struct "
         "decoding, case variants included) or from the argument, Redact() re-reads the exact member from the redacted JSON, and the two can differ",
         "texts with ill-formed Unicode are skipped by the driver; texts with duplicate keys are skipped on the trusted / property ops and "
-        "REFUSED (model, specification, code since 77ea759) on the untrusted op",
+        "REFUSED (model, specification, code since 7c511f2) on the untrusted op",
         "derived_same_accessors: hypothesis 'format 1 or a stored ID' (true of everything a constructor other than ...WithEventID(\"\") "
         "returned); SetUnsignedField is modelled for keys without gjson path syntax on an absent / object unsigned member",
         "eventID_redact_invariant: what remains outside is trusted JSON that carries an exact event_id member in a hashed-ID format: "
-        "NewEventFromTrustedJSON now computes the ID whatever the member says (fix 72889ee), Redact() still re-reads the member from the "
+        "NewEventFromTrustedJSON now computes the ID whatever the member says (fix 1b1773a), Redact() still re-reads the member from the "
         "redacted JSON, so the ID of such an event changes on redaction (caller's contract; not reachable from the receipt path or Build)",
     ],
 }
